@@ -31,7 +31,7 @@ def correspondence(ctx):
         for n in neigh:
             cases.append(f'rule|{name}|{hexs(mk(n))}|{off}')
     # all labels over the class alphabet at every offset inside and outside
-    alpha = [0x94D, 0xA872, 0x628, 0x627, 0x64B, 0x61, 0x200C, 0x200D, 0x6C, 0xB7, 0x375, 0x3B1, 0x5F3, 0x5D0, 0x30FB, 0x3042, 0x30A2, 0x4E00, 0x660, 0x6F0]
+    alpha = xa(ctx, [0x94D, 0xA872, 0x628, 0x627, 0x64B, 0x61, 0x200C, 0x200D, 0x6C, 0xB7, 0x375, 0x3B1, 0x5F3, 0x5D0, 0x30FB, 0x3042, 0x30A2, 0x4E00, 0x660, 0x6F0], 4)
     maxlen = 3 if ctx.tier == 'quick' else 4
     offs = lambda n: [str(i) for i in range(n + 2)] + ['half', 'max-1', 'max']
     for s in all_strings(alpha, maxlen, 0):
